@@ -13,14 +13,18 @@ Correspondence (Lean model ≈ code), every stream through the public entry poin
   Q/U Lean `quote`/`unquote`/`utf8Valid` vs the implementation's quote closures,
      `urllib.parse.quote`, `unquote_to_bytes`, `unquote(errors="strict")`;
   J/H Lean hostportjoin/hostportsplit vs `aiocoap.util`;  N  Lean IPv6 normaliser vs `ipaddress`.
-Oracle (independent reading of RFC 7252 §6.4/§6.5 over what the implementation did; own
-percent-decoder, own host/port splitter, libc `inet_pton` for address identity):
+Oracle (independent reading of RFC 7252 §6.4/§6.5 and RFC 3986 §3.2.2 over what the implementation
+did; own percent-decoder, own host/port splitter, own IPv4address / IP-literal recognisers, libc
+`inet_pton` for address identity):
   options -> URI -> options is the identity on non-degenerate option sets and two different
   option sets never yield the same URI; an accepted URI recomposes to a pure-ASCII URI that is
   accepted again, decomposes to the same (scheme, host, port, path, query) and recomposes to
-  itself; a structurally generated URI decomposes as §6.4 says; a URI with a listed defect is
-  rejected with the documented error class; any string is either accepted or rejected with
-  exactly MalformedUrlError / IncompleteUrlError.
+  itself; every composed URI consists of URI characters only — the authority and its bracketed
+  literal included; a structurally generated URI decomposes as §6.4 says (Uri-Host omitted exactly
+  for RFC 3986 IPv4address / IP-literal hosts); a URI with a listed defect — among them text next
+  to a bracketed literal and a zone identifier that is not unreserved — is rejected with the
+  documented error class; any string is either accepted or rejected with exactly
+  MalformedUrlError / IncompleteUrlError.
 """
 import re
 import socket
@@ -28,13 +32,16 @@ import urllib.parse
 
 from common import compare, load_corpus, HarnessError
 
-RULE = ("G/S: option sets built from host kinds (lower-case names over the full Unicode range, "
-        "IPv4, canonical IPv6 with zones), ports {none,0,1,80,443,5683,5684,65535,random}, path "
+RULE = ("G/S: option sets built from host kinds (lower-case names over the full Unicode range incl. "
+        "IPv6 texts with hostile zone identifiers ? # ] [ @ / % LF blank non-ASCII, which are names, "
+        "and Uri-Host values that do spell IP literals; IPv4; canonical IPv6 with unreserved zones), ports {none,0,1,80,443,5683,5684,65535,random}, path "
         "and query segment lists over weighted alphabets (reserved / ? & = % #, unreserved, "
         "controls, BMP, astral; empty segments; the degenerate [''] lists); S: structured URI "
         "texts with denormal features (mixed case, escapes of every kind, empty/zero-padded/"
-        "out-of-range/non-numeric ports, user info, fragments, missing scheme/host, IPv4-like and "
-        "bracketed hosts valid and invalid, leading controls, TAB/CR/LF) and arbitrary strings "
+        "out-of-range/non-numeric ports, user info, fragments, missing scheme/host, dotted quads around "
+        "the dec-octet boundaries 0 00 01 9 10 099 100 255 256 0255, bracketed hosts valid and invalid, "
+        "with text before/after the brackets and with hostile zone identifiers, leading controls, "
+        "TAB/CR/LF) and arbitrary strings "
         "(random over a delimiter-heavy alphabet, mutations of valid URIs). Non-trivial: an option "
         "set with a reserved/non-ASCII/empty segment or non-name host; a text that is accepted "
         "and differs from its normal form, or is rejected. Distinct by full input.")
@@ -43,7 +50,12 @@ TRUSTED = ["CPython's urllib.parse and ipaddress are restated in the model (Uri/
            "libc inet_pton as the oracle's notion of IPv6 address identity"]
 ASSUMPTIONS = ["strings are Unicode text (no lone surrogates): str <-> UTF-8 is a bijection",
                "requests on the client side without Proxy-Uri/Proxy-Scheme/Uri-Path-Abbrev; "
-               "set_uri_host=True",
+               "set_uri_host=True, no Uri-Port option (set_request_uri never sets one; the "
+               "Uri-Port branch of get_request_uri re-escapes the remote's host: "
+               "audits/audit-A/C16_uriport_reescape.py)",
+               "the remote of an option set is what set_request_uri / UndecidedRemote make of a URI "
+               "authority (an application that builds a remote with delimiters in the zone "
+               "identifier of its literal by hand gets them back verbatim)",
                "a netloc with raw non-ASCII characters is outside the model (urllib's NFKC check "
                "and Unicode lower-casing); such inputs are judged by the oracle only"]
 
@@ -173,12 +185,26 @@ def o_split_hostinfo(hostinfo):
     return host, (int(port) if port else None)
 
 
+_DEC_OCTET = r"(?:25[0-5]|2[0-4][0-9]|1[0-9][0-9]|[1-9][0-9]|[0-9])"      # RFC 3986 §3.2.2
+_IPV4ADDRESS = re.compile(r"%s\.%s\.%s\.%s" % ((_DEC_OCTET,) * 4))
+
+
+def o_is_ipv4address(host):
+    """RFC 3986 IPv4address = dec-octet "." dec-octet "." dec-octet "." dec-octet"""
+    return _IPV4ADDRESS.fullmatch(host) is not None
+
+
+def o_zone_ok(zone):
+    """RFC 6874 ZoneID without pct-encoded: unreserved characters only, at least one"""
+    return zone != "" and all(c in UNRESERVED for c in zone)
+
+
 def o_host_key(host):
-    """identity of a host: packed IPv6 address + zone if it is one, else the text"""
-    if host.startswith("[") and host.endswith("]"):
-        host = host[1:-1]
-    addr, pct, zone = host.partition("%")
-    if ":" in addr:
+    """identity of a host: packed IPv6 address + zone if it is an IPv6 address text (optionally in
+    a pair of brackets) whose zone identifier, if any, can stand in a URI; else the text"""
+    inner = host[1:-1] if host.startswith("[") and host.endswith("]") else host
+    addr, pct, zone = inner.partition("%")
+    if ":" in addr and (not pct or o_zone_ok(zone)):
         try:
             return ("ip6", socket.inet_pton(socket.AF_INET6, addr), zone if pct else None)
         except (OSError, ValueError):
@@ -201,12 +227,29 @@ def o_effective(o):
 _URI_CHARS = set(UNRESERVED + SUB_DELIMS + ":/?#[]@%")
 
 
+_AUTHORITY = re.compile(r"[a-z][a-z0-9+.-]*://([^/?#]*)")
+_HOST_CHARS = set(UNRESERVED + SUB_DELIMS + "%")
+
+
 def o_uri_shape(uri):
-    """a composed URI must consist of URI characters only (RFC 3986 §2)"""
-    # (the zone identifier of an IP literal is carried over verbatim, whatever it contained)
-    bad = sorted(set(re.sub(r"//\[[^\]/]*\]", "//", uri, count=1)) - _URI_CHARS)
+    """a composed URI must consist of URI characters only (RFC 3986 §2), and its authority must be
+    host [":" port] with host = "[" literal "]" or reg-name characters (RFC 3986 §3.2)"""
+    bad = sorted(set(uri) - _URI_CHARS)
     if bad:
         return "composed URI %r contains non-URI characters %r" % (uri, "".join(bad))
+    mo = _AUTHORITY.match(uri)
+    if mo is None:
+        return "composed URI %r contains non-URI characters: no scheme://authority" % (uri,)
+    auth = mo.group(1)
+    if auth.startswith("["):
+        lit, closing, rest = auth[1:].partition("]")
+        ok = closing and not (set(lit) - set(UNRESERVED + SUB_DELIMS + ":%")) and \
+            re.fullmatch(r"(:[0-9]*)?", rest) is not None
+    else:
+        host, colon, port = auth.partition(":")
+        ok = not (set(host) - _HOST_CHARS) and re.fullmatch(r"[0-9]*", port) is not None
+    if not ok:
+        return "composed URI %r contains non-URI characters in its authority %r" % (uri, auth)
     return ""
 
 
@@ -258,11 +301,17 @@ def oracle_text(impl, text, expect=None):
         return ("URI %r composed from %r decomposes to different options: %r vs %r"
                 % (u1, text, o_effective(o1), o_effective(o2)))
     u2 = impl.get_uri(m2)
-    host_is_ip_text = o1["uri_host"] is not None and o_host_key(o1["uri_host"])[0] == "ip6"
-    # (a Uri-Host that spells an IPv6 address moves to the remote on the way back, where its
-    # text is normalised: same destination, but the first composed URI is not yet the fixed point)
-    if u2 != u1 and not host_is_ip_text:
-        return "normal form %r of %r is not stable: recomposes to %r" % (u1, text, u2)
+    if u2 != u1:
+        # RFC 7252 §6.5 step 4 / §6.4 step 5: a Uri-Host value that spells an IP literal (only
+        # reachable through escapes, "coap://%3A%3A01/") is composed as that literal and comes back
+        # as the destination address, where its text is normalised; the destination was compared
+        # above, and one more round must be the fixed point.  Nothing else may move.
+        if not (o1["uri_host"] is not None and o_host_key(o1["uri_host"])[0] == "ip6"):
+            return "normal form %r of %r is not stable: recomposes to %r" % (u1, text, u2)
+        kind3, m3 = impl.set_uri(u2) if u2 is not None else ("err:compose", None)
+        u3 = impl.get_uri(m3) if kind3 == "ok" else None
+        if u3 != u2 or o_effective(impl.observe(m3)) != o_effective(o2):
+            return "normal form %r of %r is not stable: recomposes to %r and then %r" % (u1, text, u2, u3)
     return ""
 
 
@@ -289,10 +338,11 @@ def oracle_resource(impl, res, seen=None):
         return ("options %r compose to %r which decomposes to different options %r"
                 % (o_effective(want), u, o_effective(o2)))
     spells_ip = res["uri_host"] is not None and (
-        o_host_key(res["uri_host"])[0] == "ip6"
-        or re.fullmatch(r"\d+\.\d+\.\d+\.\d+", res["uri_host"]) is not None)
-    # (a Uri-Host value that spells an IP address comes back as the remote: same destination,
-    # compared above; outside the options->URI->options clause, cf. NameOk in the Lean model)
+        o_host_key(res["uri_host"])[0] == "ip6" or o_is_ipv4address(res["uri_host"]))
+    # (a Uri-Host value that spells an IP literal of RFC 3986 / RFC 6874 comes back as the remote
+    # (RFC 7252 §6.4 step 5): same destination, compared above.  Anything else -- also an IPv6
+    # text with delimiters in its zone identifier, or a dotted quad with leading zeros -- must come
+    # back as the same Uri-Host option)
     if res["uri_host"] is not None and o2["uri_host"] != res["uri_host"] and not spells_ip:
         return "Uri-Host %r comes back as %r via %r" % (res["uri_host"], o2["uri_host"], u)
     if seen is not None:
@@ -358,7 +408,13 @@ def gen_name(rng, decoded=True):
     k = rng.random()
     if k < 0.3:
         return rng.choice(["h", "localhost", "example.com", "a.b-c.d_e~f", "xn--nxasmq6b", "1.2.3",
-                           "1.2.3.4.5", "256.1.1.1", "1..2.3", "...", "1.2.3.256", "a1.2.3.4"])
+                           "1.2.3.4.5", "256.1.1.1", "1..2.3", "...", "1.2.3.256", "a1.2.3.4",
+                           "01.2.3.4", "1.2.3.0255", "1.02.3.4", "1.2.3.00", "0000001.2.3.4"])
+    if decoded and k < 0.42:
+        # IPv6 address texts whose zone identifier cannot stand in a URI: names, not addresses
+        a = rng.choice(IP6_CANON)
+        z = rng.choice(HOSTILE_ZONES_OPT)
+        return rng.choice(["%s%%%s", "[%s%%%s]"]) % (a, z)
     n = rng.choice([1, 2, 3, 6, 12])
     out = []
     for _ in range(n):
@@ -376,7 +432,16 @@ def gen_name(rng, decoded=True):
 
 IP6_CANON = ["::", "::1", "1::", "2001:db8::1", "fe80::1", "2001:db8:0:1:1:1:1:1",
              "1:2:3:4:5:6:7:8", "::ffff:102:304", "ff02::fd", "1:0:0:2::3", "0:1::"]
-ZONES = [None, None, "eth0", "1", "ETH0", "25eth0", "a-b.c", "z~"]
+# zone identifiers that can stand in a URI (RFC 6874 ZoneID, unreserved) ...
+ZONES = [None, None, "eth0", "1", "ETH0", "25eth0", "a-b.c", "z~", "0", "a_b", "wlan0.100", "~", "-"]
+# ... and those that cannot: delimiters, brackets, blanks, controls, sub-delims, non-ASCII.
+# (`ipaddress` takes every one of them that has no "%" or "/" in it)
+HOSTILE_ZONES = ["a?b", "a#b", "a/b", "a]b", "a[b", "a@b", "a%b", "a b", "a\nb", "a\tb", "a\rb", "a\x00b",
+                 "a\x7fb", "a\"b", "a<b", "a>b", "a\\b", "a^b", "a`b", "a{b", "a|b", "a}b", "a;b", "a:b",
+                 "a=b", "a&b", "a+b", "a,b", "a!b", "a$b", "a'b", "a(b", "a)b", "a*b", "?", "#", "]", "[",
+                 "@", " ", "\n", "a\u00e9", "\u4e2d", "\U0001f600", "eth0]", "]x", "x]:7"]
+# (for Uri-Host values only: in a URI text the authority would end at the slash)
+HOSTILE_ZONES_OPT = HOSTILE_ZONES + ["a]/p", "a]?q", "a]#f", "a]:7/p"]
 
 
 def gen_ip4(rng):
@@ -384,6 +449,18 @@ def gen_ip4(rng):
         return rng.choice(["1.2.3.4", "0.0.0.0", "255.255.255.255", "127.0.0.1", "10.0.0.255"])
     return ".".join(str(rng.choice([0, 1, 9, 10, 99, 100, 199, 200, 249, 250, 255]))
                     for _ in range(4))
+
+
+DEC_OCTET_EDGES = ["0", "00", "01", "9", "10", "099", "100", "199", "200", "249", "250", "255", "256",
+                   "0255", "000", "260", "300", "999", "1000", "0000001", ""]
+
+
+def gen_quad(rng):
+    """a dotted quad around the boundaries of RFC 3986's dec-octet"""
+    parts = [rng.choice(["1", "22", "133", "255", "0"]) for _ in range(4)]
+    for _ in range(rng.choice([1, 1, 2])):
+        parts[rng.randrange(4)] = rng.choice(DEC_OCTET_EDGES)
+    return ".".join(parts)
 
 
 def gen_port(rng):
@@ -450,10 +527,23 @@ def boundary_resources():
                             "path": ["p"], "query": ["q"]})
     for name in ["a/b", "a?b", "a#b", "a@b", "a%41", "a%", "a:b", "[a", "a]", "a b", "a\x00b", "a\tb",
                  "é", "a.b", "~", "a!$&'()*+,;=b", "::x", "[::x]", "1.2.3.256", "1..2.3",
-                 "[::1", "::1]", "[::1]]", "[[::1]", "[fe80::1%eth0"]:
+                 "[::1", "::1]", "[::1]]", "[[::1]", "[fe80::1%eth0",
+                 "01.2.3.4", "1.2.3.0255", "0000001.2.3.4", "1.2.3.00", "1.2.3.099", "1.2.3.256"] + \
+            ["fe80::1%" + z for z in HOSTILE_ZONES_OPT] + ["[::1%" + z + "]" for z in HOSTILE_ZONES_OPT]:
         out.append({"kind": "R", "host_kind": "name", "scheme": "coap",
                     "hostinfo": o_join(o_reg_name(name), 7), "uri_host": name,
                     "path": ["x"], "query": []})
+    # Uri-Host values that do spell an IP literal (RFC 7252 §6.5 step 4: composed as that literal;
+    # the same destination comes back as the remote)
+    for name in ["::1", "[::1]", "fe80::1%eth0", "[fe80::1%eth0]", "FE80::1%ETH0", "::01", "::1%0",
+                 "fe80::1%a-b.c_d~e", "1.2.3.4", "0.0.0.0", "255.255.255.255", "::ffff:1.2.3.4"]:
+        out.append({"kind": "R", "host_kind": "iptext", "scheme": "coap", "hostinfo": "h:7",
+                    "uri_host": name, "path": ["x"], "query": []})
+    for z in ZONES:
+        if z is not None:
+            out.append({"kind": "R", "host_kind": "ip6", "scheme": "coap",
+                        "hostinfo": o_join("fe80::1%" + z, 7), "uri_host": None,
+                        "path": ["x"], "query": []})
     return out
 
 
@@ -527,6 +617,18 @@ def gen_structured_text(rng):
             else:
                 parts.append(rng.choice(["%ff", "%C3", "%", "%4", "%zz"]))
         host_txt = "".join(parts)
+        if rng.random() < 0.08:
+            # a registered name whose decoded value looks like an IP literal, with or without a
+            # zone identifier that could stand in a URI
+            a = rng.choice(IP6_CANON + IP6_FORMS[:6] + ["1.2.3.4", "01.2.3.4"])
+            if ":" in a and rng.random() < 0.6:
+                a += "%" + rng.choice(HOSTILE_ZONES + [z for z in ZONES if z])
+            if rng.random() < 0.3:
+                a = "[" + a + "]"
+            host_txt = "".join(ch if ch in UNRESERVED and (ch != "1" or rng.random() < 0.7)
+                               else esc(rng, ch) for ch in a)
+            if o_is_ipv4address(host_txt):
+                host_txt = "%3" + host_txt[0] + host_txt[1:]
         dec = o_pct_decode(host_txt)
         if dec is None:
             defects.append(("MalformedUrlError", "non-UTF-8 escape in host"))
@@ -535,10 +637,10 @@ def gen_structured_text(rng):
     elif k < 0.7:
         host_txt = rng.choice(["1.2.3.4", "255.255.255.255", "0.0.0.0", "256.1.1.1", "1.2.3",
                                "1.2.3.4.5", "1..2.3", "...", "01.2.3.4", "1.2.3.0255", "1.2.3.1000",
-                               "1.2.3.4x", "1.2.3.%34", "999999999999.1.1.1"] + [gen_ip4(rng)])
-        octets = host_txt.split(".")
-        if (len(octets) == 4 and all(o != "" and set(o) <= set("0123456789") for o in octets)
-                and all(int(o) <= 255 for o in octets)):
+                               "1.2.3.4x", "1.2.3.%34", "999999999999.1.1.1", "0000001.2.3.4",
+                               gen_ip4(rng), gen_quad(rng), gen_quad(rng)])
+        # RFC 7252 §6.4 step 5: no Uri-Host only for an IPv4address of RFC 3986 (dec-octets)
+        if o_is_ipv4address(host_txt):
             uri_host = None
         else:
             dec = o_pct_decode(host_txt)
@@ -546,11 +648,27 @@ def gen_structured_text(rng):
     elif k < 0.93:
         good = rng.random() < 0.7
         inner = rng.choice(IP6_FORMS) if good else rng.choice(IP6_BAD)
-        if good and rng.random() < 0.4:
-            inner += "%" + rng.choice(["eth0", "25eth0", "ETH0", "1"])
+        k2 = rng.random()
+        if good and k2 < 0.4:
+            inner += "%" + rng.choice([z for z in ZONES if z])
+        elif good and k2 < 0.55:
+            # (with "/", "?", "#" the authority ends inside the brackets; "@" makes user info;
+            # TAB/CR/LF are dropped by the URI splitter before anything else looks: no expectation)
+            z = rng.choice(HOSTILE_ZONES)
+            inner += "%" + z
+            if any(c in z for c in "\t\r\n"):
+                unmodelled = True
+            defects.append(("MalformedUrlError", "zone identifier %r cannot stand in a URI" % z))
         host_txt = "[" + inner + "]"
         if not good:
             defects.append(("MalformedUrlError", "invalid IP literal"))
+        k3 = rng.random()
+        if k3 < 0.08:
+            host_txt = rng.choice(["a", "evil.example", "1.2.3.4", "[", "]", "x:", "[::2]", "%41"]) + host_txt
+            defects.append(("MalformedUrlError", "text before the bracketed literal"))
+        elif k3 < 0.16:
+            host_txt = host_txt + rng.choice(["a", "evil.example", "x:7", "]", "[", "[::2]", "%41", ".", "-"])
+            defects.append(("MalformedUrlError", "text after the bracketed literal"))
     else:
         host_txt = ""
         defects.append(("MalformedUrlError", "no host"))
@@ -628,7 +746,7 @@ def gen_structured_text(rng):
         prefix = "//"
         defects = [d for d in defects if d[1] == "fragment"]
         # (an invalid bracketed host already fails in the URI splitter: either class)
-        cls = None if host_txt.startswith("[") else "IncompleteUrlError"
+        cls = None if "[" in host_txt or "]" in host_txt else "IncompleteUrlError"
         defects.append((cls, "no scheme") if not frag_txt.strip("#")
                        else ("MalformedUrlError", "fragment"))
         defects = defects[-1:]
@@ -715,6 +833,51 @@ BOUNDARY_TEXTS = [
     "coap://h/;p?q;r", "coap://h/./../a", "coap://h/a%2Fb%3F%26?c%26d%3D=e%23",
     "coap://host/blåbærsyltetøy", "coap://h/\U0001f600?\U0001f600",
 ]
+
+
+def boundary_expectations():
+    """texts with the expectation the property text and RFC 3986 §3.2.2 give, enumerated in full"""
+    out = []
+    acc = lambda host, port=None, path=(), query=(): ("accept", "coap", host, port, list(path), list(query))
+    rej = lambda why: ("reject", "MalformedUrlError", why)
+    # dec-octet boundaries, at every position of the quad
+    for v in DEC_OCTET_EDGES:
+        for pos in range(4):
+            parts = ["1", "2", "3", "4"]
+            parts[pos] = v
+            h = ".".join(parts)
+            out.append(("coap://%s/" % h, acc(None if o_is_ipv4address(h) else h)))
+            out.append(("coap://%s:7/x" % h, acc(None if o_is_ipv4address(h) else h, 7, ["x"])))
+    # text next to a bracketed literal
+    for t in ["coap://a[::1]/", "coap://evil.example[::1]:7/x", "coap://[::1]x/", "coap://[::1]x:7/",
+              "coap://[::1]evil.example/", "coap://a[fe80::1%25eth0]/", "coap://[::1]]/", "coap://[[::1]/",
+              "coap://[::1][::2]/", "coap://[::1]:7]/", "coap://[::1]:[/", "coap://1.2.3.4[::1]/",
+              "coap://[::1].example/", "coap://%41[::1]/", "coap://[::1]%41/", "coap://x:[::1]/",
+              "coap://[::1]:7x/", "coap://[::1]::7/", "coap://[[::1]]/", "coap://[]:7/"]:
+        out.append((t, rej("text next to the bracketed literal")))
+    for t, port in [("coap://[::1]/p", None), ("coap://[::1]:/p", None), ("coap://[::1]:7/p", 7),
+                    ("coap://[::1]:0/p", 0), ("coap://[::1]:65535/p", 65535)]:
+        out.append((t, acc(None, port, ["p"])))
+    # zone identifiers
+    for z in HOSTILE_ZONES:
+        if any(c in z for c in "\t\r\n"):
+            out.append(("coap://[fe80::1%%%s]/p" % z, None))       # dropped by the URI splitter
+        else:
+            out.append(("coap://[fe80::1%%%s]/p" % z, rej("zone identifier %r" % z)))
+            out.append(("coap://[fe80::1%%%s]:7/p" % z, rej("zone identifier %r" % z)))
+    for z in ZONES:
+        if z is not None:
+            out.append(("coap://[fe80::1%%%s]/p" % z, acc(None, None, ["p"])))
+            out.append(("coap://[FE80::1%%%s]:7/p" % z, acc(None, 7, ["p"])))
+    # registered names that decode to something looking like an IP literal
+    for t, h in [("coap://%3A%3A1/", "::1"), ("coap://%5B%3A%3A1%5D/", "[::1]"), ("coap://%3A%3A01/", "::01"),
+                 ("coap://fe80%3A%3A1%25eth0/", "fe80::1%eth0"), ("coap://fe80%3A%3A1%25a%3Fb/", "fe80::1%a?b"),
+                 ("coap://%3A%3A1%25a%5Db/", "::1%a]b"), ("coap://%3A%3A1%25a%0Ab/", "::1%a\nb"),
+                 ("coap://%3A%3A1%25a%20b/", "::1%a b"), ("coap://%3A%3A1%25a%40b/", "::1%a@b"),
+                 ("coap://%5B%3A%3A1%25x%5Dy%5D/", "[::1%x]y]"), ("coap://%31.2.3.4/", "1.2.3.4"),
+                 ("coap://%30%31.2.3.4/", "01.2.3.4"), ("coap://FE80%3A%3A1%25ETH0/", "fe80::1%eth0")]:
+        out.append((t, acc(h)))
+    return out
 
 
 # ---------------------------------------------------------------------------- run
@@ -928,7 +1091,8 @@ def lib_correspondence(env, rep, impl):
     # --- IPv6 normalisation (the oracle of the model) against ipaddress
     import ipaddress
     lines, outs, cases = [], [], []
-    texts = IP6_FORMS + IP6_BAD + IP6_CANON + [a + "%" + z for a in IP6_CANON[:4] for z in ZONES if z]
+    texts = IP6_FORMS + IP6_BAD + IP6_CANON + [a + "%" + z for a in IP6_CANON[:4] for z in ZONES if z] + \
+        [a + "%" + z for a in ("::1", "FE80::01") for z in HOSTILE_ZONES_OPT]
     for _ in range(env.scale(3000, 40000)):
         k = rng.random()
         if k < 0.6:
@@ -941,7 +1105,7 @@ def lib_correspondence(env, rep, impl):
             if rng.random() < 0.15:
                 t += ":" + rng.choice(["1.2.3.4", "255.255.255.255", "01.2.3.4", "1.2.3", "256.0.0.1"])
             if rng.random() < 0.15:
-                t += "%" + rng.choice(["eth0", "", "a%b", "1"])
+                t += "%" + rng.choice(["eth0", "", "a%b", "1"] + HOSTILE_ZONES)
         else:
             t = "".join(rng.choice("0123abF:.%/v") for _ in range(rng.choice([2, 4, 8, 14])))
         texts.append(t)
@@ -951,10 +1115,15 @@ def lib_correspondence(env, rep, impl):
             y = str(ipaddress.IPv6Address(t))
             outs.append(hx(y))
             rep.count("N:valid")
-            # the assumptions the theorems make about ipaddress (`IpLaws` in Proofs/Uri/NormalForm.lean)
+            # the assumptions the theorems make about ipaddress (`IpLaws` in Proofs/Uri/NormalForm.lean):
+            # canon (fixed point, colon, lower-case before the zone, no leading v or [), addr / addrIn
+            # (hex digits, colons, dots before the zone, in the result and in the input), zone (copied
+            # from the input), colon (input)
             head = y.partition("%")[0]
             if not (str(ipaddress.IPv6Address(y)) == y and ":" in y and ":" in t and head == head.lower()
-                    and y[0] not in "v[" and all(c in t or c in "0123456789abcdef:." for c in y)):
+                    and y[0] not in "v[" and all(c in "0123456789abcdef:." for c in head)
+                    and all(c in "0123456789abcdefABCDEF:." for c in t.partition("%")[0])
+                    and y.partition("%")[2] == t.partition("%")[2] and ("%" in y) == ("%" in t)):
                 raise HarnessError("ipaddress violates the assumed IpLaws on %r -> %r" % (t, y))
         except ValueError:
             outs.append("!")
@@ -984,7 +1153,8 @@ def run(env, rep):
     run_texts(env, rep, impl, [(t, None) for t in lean_texts], "composed", feedback=False)
 
     # URI -> options -> URI: corpus, boundary table, structured texts
-    run_texts(env, rep, impl, corpus_texts + [(t, None) for t in BOUNDARY_TEXTS], "boundary")
+    run_texts(env, rep, impl, corpus_texts + [(t, None) for t in BOUNDARY_TEXTS] + boundary_expectations(),
+              "boundary")
     structured = [gen_structured_text(rng) for _ in range(env.scale(20000, 250000))]
     for _, e in structured:
         rep.count("structured:expect=" + (e[0] if e else "none"))
